@@ -423,7 +423,7 @@ compile:
 	// While we're running, also update task stats directly into the tasks's status.
 	// TODO(marius): also aggregate stats across all tasks.
 	statsCtx, statsCancel := context.WithCancel(ctx)
-	go monitorTaskStats(statsCtx, m, task)
+	go monitorTaskStats(statsCtx, m, task, task.Status)
 
 	b.sess.tracer.Event(m, task, "B")
 	task.Set(TaskRunning)
@@ -460,8 +460,11 @@ compile:
 }
 
 // monitorTaskStats monitors stats (e.g. records read/written) of the task
-// running on m, updating task's status until ctx is done.
-func monitorTaskStats(ctx context.Context, m *sliceMachine, task *Task) {
+// running on m, updating the task's status until ctx is done. The status
+// is that of this run of the task: by the time a final update is printed
+// the evaluator may already have resubmitted the task (and given it a new
+// status), so task.Status must not be read here.
+func monitorTaskStats(ctx context.Context, m *sliceMachine, task *Task, taskStatus *status.Task) {
 	wait := func() {
 		select {
 		case <-time.After(statsPollInterval):
@@ -476,7 +479,7 @@ func monitorTaskStats(ctx context.Context, m *sliceMachine, task *Task) {
 			wait()
 			continue
 		}
-		task.Status.Printf("%s: %s", m.Addr, *vals)
+		taskStatus.Printf("%s: %s", m.Addr, *vals)
 		wait()
 	}
 }
